@@ -667,3 +667,71 @@ func TestC10Readers(t *testing.T) {
 		rec.Case(true, fmt.Sprintf("stress-readers %s %d", enc, reads.Load()), nil, "stress-readers")
 	}
 }
+
+// TestC10MountPoint: the previous Spec file is a mount point (a single-file
+// bind mount, as container runtimes create them), so rename(2) onto it fails
+// with EBUSY. Whatever the writer does then - give up or find another way -
+// a reader must never find anything but the complete previous or the complete
+// new content, also when the write is cut at a generated offset.
+func TestC10MountPoint(t *testing.T) {
+	rec := stats.For("C10", "mountpoint")
+	tl := newC10Tools(t)
+	rapid.Check(t, func(t *rapid.T) {
+		newSpec, oldSpec := c10Specs(t)
+		enc := rapid.SampledFrom([]string{".json", ".yaml"}).Draw(t, "encoding")
+		target := "target" + enc
+		root := filepath.Join(tl.work, "mcase")
+		_ = os.RemoveAll(root)
+		_ = os.MkdirAll(root, 0o755)
+		specFile := filepath.Join(root, "new-spec.json")
+		_ = os.WriteFile(specFile, []byte(specImage(newSpec)), 0o644)
+		// size of the complete new file, from a reference write elsewhere
+		ref := filepath.Join(root, "ref")
+		if out, err := pinnedCommand(tl.vhelper, "write", ref, target, specFile).Output(); err != nil || !strings.Contains(string(out), "{}") {
+			t.Fatalf("VERIF-HARNESS reference write failed: %v %s", err, out)
+		}
+		full, _ := os.ReadFile(filepath.Join(ref, target))
+		cuts := []int{-1, 0, rapid.IntRange(1, len(full)-1).Draw(t, "cut"), len(full) + 1}
+		for _, n := range cuts {
+			s := c10Prepare(t, root, "old-file-and-bystander", target, oldSpec)
+			s.newImage = specImage(newSpec)
+			p := filepath.Join(s.dir, target)
+			if err := unix.Mount(p, p, "", unix.MS_BIND, ""); err != nil {
+				rec.Label("mount-unavailable")
+				return
+			}
+			args := []string{"write"}
+			mode := "uncut write"
+			if n >= 0 {
+				args = append(args, "--fsize", fmt.Sprint(n))
+				mode = fmt.Sprintf("write cut after %d of %d bytes", n, len(full))
+			}
+			out, err := pinnedCommand(tl.vhelper, append(args, s.dir, target, specFile)...).Output()
+			var res struct{ Err string }
+			_ = json.Unmarshal(bytes.TrimSpace(out), &res)
+			msg, st := "", ""
+			if err != nil {
+				msg = fmt.Sprintf("VERIF-UNDECIDED helper failed: %v", err)
+			} else {
+				msg, st = c10Observe(s)
+				if msg == "" && res.Err == "" && st != "new" {
+					msg = "WriteSpec reported success but the directory does not hold the new Spec"
+				}
+				if msg == "" && n >= 0 && n < len(full) && st == "new" {
+					msg = fmt.Sprintf("the write was cut after %d of %d bytes, yet the target holds the new Spec", n, len(full))
+				}
+			}
+			if uerr := unix.Unmount(p, unix.MNT_DETACH); uerr != nil {
+				t.Fatalf("VERIF-HARNESS cannot unmount %s: %v", p, uerr)
+			}
+			if strings.HasPrefix(msg, "VERIF-") {
+				t.Fatalf("%s", msg)
+			}
+			c := c10Case{Spec: json.RawMessage(specImage(newSpec)), Encoding: enc, Initial: "old-file-is-a-mount-point", Mode: mode, Result: "directory holds " + st}
+			if msg != "" {
+				t.Fatalf("C10 violated: %s\n%s; the previous Spec file is a mount point (rename onto it fails with EBUSY); WriteSpec returned %q\nencoding %s\nSpec: %s", msg, mode, res.Err, enc, clip(specImage(newSpec), 1500))
+			}
+			rec.Case(n >= 0 && n < len(full), canonJSON(c), func() any { return c }, "mount-point", "holds:"+st, "enc:"+enc)
+		}
+	})
+}
